@@ -46,11 +46,15 @@ const (
 	faultHoleRead
 	faultHoleTruncate
 	faultBaseNewFile
+	faultDevShortRead  // device ReadAt returns fewer bytes without an error
+	faultHoleShortRead // hole source ReadAt returns fewer bytes without an error
+	faultHoleSeek      // hole source GetNextRegionOffset fails
+	faultBaseTruncate  // the file of the base pool fails Truncate (no effect)
 	faultKinds
 )
 
 func (k faultKind) String() string {
-	return [...]string{"none", "devRead", "devWrite", "holeRead", "holeTruncate", "baseNewFile", "?"}[k]
+	return [...]string{"none", "devRead", "devWrite", "holeRead", "holeTruncate", "baseNewFile", "devShortRead", "holeShortRead", "holeSeek", "baseTruncate", "?"}[k]
 }
 
 // faultPlan arms at most one fault for the duration of one harness-level
@@ -317,6 +321,15 @@ func (d *memDevice) ReadAt(p []byte, off int64) (int, error) {
 	if d.plan.hit(faultDevRead) {
 		return 0, errInjected
 	}
+	if d.plan.hit(faultDevShortRead) {
+		// Half of the bytes, no error (or EOF, which io.ReaderAt
+		// also permits for a short read).
+		k := copy(p[:len(p)/2], d.data[off:])
+		if d.plan.short {
+			return k, io.EOF
+		}
+		return k, nil
+	}
 	n := copy(p, d.data[off:])
 	if d.eofAtEnd && off+int64(n) == int64(len(d.data)) {
 		return n, io.EOF
@@ -415,6 +428,20 @@ func (h *monHoleSource) ReadAt(p []byte, off int64) (int, error) {
 	if h.plan.hit(faultHoleRead) {
 		return 0, errInjected
 	}
+	if h.plan.hit(faultHoleShortRead) {
+		p = p[:len(p)/2]
+		if h.pattern.zero {
+			return pool.ZeroHoleSource.ReadAt(p, off)
+		}
+		for i := range p {
+			if o := off + int64(i); o < h.limit {
+				p[i] = h.pattern.at(o)
+			} else {
+				p[i] = 0
+			}
+		}
+		return len(p), nil
+	}
 	if h.pattern.zero {
 		return pool.ZeroHoleSource.ReadAt(p, off)
 	}
@@ -446,6 +473,9 @@ func (h *monHoleSource) Truncate(size int64) error {
 
 func (h *monHoleSource) GetNextRegionOffset(off int64, regionType filesystem.RegionType) (int64, error) {
 	h.checkOpen("GetNextRegionOffset")
+	if h.plan.hit(faultHoleSeek) {
+		return 0, errInjected
+	}
 	if h.pattern.zero {
 		return pool.ZeroHoleSource.GetNextRegionOffset(off, regionType)
 	}
@@ -493,5 +523,24 @@ func (fp *faultyPool) NewFile(holeSource pool.HoleSource, size uint64) (filesyst
 	if fp.plan.hit(faultBaseNewFile) {
 		return nil, errInjected
 	}
-	return fp.base.NewFile(holeSource, size)
+	f, err := fp.base.NewFile(holeSource, size)
+	if err != nil {
+		return nil, err
+	}
+	return &faultyFile{FileReadWriter: f, plan: fp.plan}, nil
+}
+
+// faultyFile is a file of the base pool whose Truncate can fail without
+// having any effect (the block device backed file itself cannot fail when
+// growing).
+type faultyFile struct {
+	filesystem.FileReadWriter
+	plan *faultPlan
+}
+
+func (f *faultyFile) Truncate(size int64) error {
+	if size >= 0 && f.plan.hit(faultBaseTruncate) {
+		return errInjected
+	}
+	return f.FileReadWriter.Truncate(size)
 }
